@@ -149,7 +149,11 @@ def fam_generator(rng):
         elt = rng.choice(["x", "x > 1", "noisy(x)", "noisy(x) > 1", "x * 2"])
         src = rng.choice(["[1, 2, 3]", "range(4)", "[0, 1, 0]", "[3]"])
         extra = rng.choice(["", "", ", 10" if fn == "sum" else "", ", default=0" if fn in ("min", "max") else "", ", key=lambda v: -v" if fn in ("min", "max", "sorted") else ""])
-        out.append(PRELUDE + f"try:\n    print({fn}([{elt} for x in {src}]{extra}))\nexcept Exception as e:\n    print('EXC', type(e).__name__)\n")
+        # the call is the right-hand side of an assignment: as an argument of `print(...)` the codemod leaves it alone
+        out.append(PRELUDE + f"try:\n    r = {fn}([{elt} for x in {src}]{extra})\n    print(r)\nexcept Exception as e:\n    print('EXC', type(e).__name__)\n")
+    # `any` / `all` over a generator stop at the first decisive element: an element expression with an effect runs fewer times
+    out.append(PRELUDE + "r = any([noisy(x) > 1 for x in [1, 2, 3]])\nprint(r)   # must\n")
+    out.append(PRELUDE + "r = sum([noisy(x) for x in [1, 2, 3]], 10)\nprint(r)   # must\n")
     return out
 
 
@@ -545,7 +549,7 @@ def classify(cid, prog, rec):
         if any(n in expr for n in ("pfx", "tup", "tyalias")): return "name-bound-to-tuple"
         return "other"
     if cid.endswith("use-generator"):
-        return "side-effecting-element" if "noisy" in prog else "other"
+        return "any-all-short-circuit-skips-effects" if ("noisy" in prog and ("any(" in prog or "all(" in prog)) else "other"
     if cid.endswith("lazy-logging"):
         return "tuple-or-special-operand"
     return "other"
@@ -579,6 +583,7 @@ def search(ctx):
         if cid.endswith("combine-startswith-endswith"):
             model_and_folds([j["programs"][rec["i"]] for rec in r["records"] if rec["changed"] and not rec.get("dropped") and not rec["same"]])
             ctx.stat("combine-failures-classified-by-model", len(AND_FOLDS))
+        ctx.stat("changed:" + cid, sum(1 for rec in r["records"] if rec["changed"]))
         for rec in r["records"]:
             prog = j["programs"][rec["i"]]
             ctx.search_case("exec:" + cid, {"codemod": cid, "program": prog[-160:]}, rec["changed"])
